@@ -589,6 +589,20 @@ RoundTripContract(ev, M) ==
             "the multiset of (tensor kind, name) changed")
   \o Clause("text", ev.a.text_equal, "printing the imported expression gives a different text")
 
+(* -- histories (C19) ----------------------------------------------------------------- *)
+(* pre: the result of the request in a fresh process, post: the result of  *)
+(* the same request at some point of a history / under another hash seed / *)
+(* tensor-name configuration (names mapped back)                           *)
+HistoryContract(ev, M) ==
+  ValEq(ev, M, ev.pre, ev.post)
+  \o Clause("text", ev.a.text_equal, "text after substitute_contracted differs from the fresh-process text")
+
+DisjointContract(ev, M) ==
+  LET S == ev.a.sets IN
+  Clause("shared-contracted-index",
+         \A a, b \in 1..Len(S) : a < b => SeqRange(S[a]) \cap SeqRange(S[b]) = {},
+         {<<a, b>> \in (1..Len(S)) \X (1..Len(S)) : a < b /\ SeqRange(S[a]) \cap SeqRange(S[b]) # {}})
+
 (* -- the contract per operation ------------------------------------------ *)
 Contract(ev, M) ==
   CASE ev.op = "valpres" -> ValEq(ev, M, ev.pre, ev.post)
@@ -597,6 +611,8 @@ Contract(ev, M) ==
     [] ev.op = "simplify_unitary" -> UnitaryContract(ev, M)
     [] ev.op = "wicks" -> WicksContract(ev, M)
     [] ev.op = "tensor" -> TensorContract(ev, M)
+    [] ev.op = "history_step" -> HistoryContract(ev, M)
+    [] ev.op = "disjoint" -> DisjointContract(ev, M)
     [] ev.op = "roundtrip" -> RoundTripContract(ev, M)
     [] ev.op = "spin" -> SpinContract(ev, M)
     [] ev.op = "spin_blocks" -> SpinBlocksContract(ev, M)
